@@ -43,6 +43,25 @@ def session(rng, nnodes, nmsgs, frag_off=False, closed=True):
     return f"net {len(tree)} {1 if closed else 0} " + " ; ".join(ops)
 
 
+def lazy_session(rng):
+    """schedule 2 of harness/netsession.py (implementation only, no Lean twin): the other nodes run at the running node's
+    resend() / read() polls but not at its send() - a router's RX FIFO fills up before the router runs, the sender stalls
+    on the full FIFO, the router retries its NETWORK_ACK while fragments wait in its own FIFO.  Chains of 3..4 nodes,
+    fragment trains of 4..6 frames and single frames (seeded change C05-s23: `_tx_standby` flushed the RX FIFO)."""
+    chain = [0, 0o1, 0o11, 0o111][: rng.choice([3, 3, 4])]
+    ops = [f"new n{i} {'network' if i in (0, len(chain) - 1) else rng.choice(['network', 'routing'])} {i} {a}"
+           for i, a in enumerate(chain)]
+    for _ in range(rng.randint(1, 2)):
+        s, d = rng.choice([(0, len(chain) - 1), (len(chain) - 1, 0)])
+        n = rng.choice([24, 73, 96, 100, 120, 144])
+        ops.append(f"n{s} write {chain[d]} {rng.choice([0, 5, 64, 65, 100, 127])} {rbytes(rng, n)} 56")
+        for _ in range(3):
+            ops += [f"n{i} update" for i in range(len(chain))]
+        for i in range(len(chain)):
+            ops += [f"n{i} read", f"n{i} read"]
+    return f"net {len(chain)} 2 " + " ; ".join(ops)
+
+
 def reuse_session(rng):
     """an application that builds its header once and re-uses it: consecutive messages of one sender carry the same
     frame id and type; each is read out at the destination before the next is written, so each is a new message"""
@@ -85,7 +104,11 @@ class C05(PropCheck):
         cs = [(session(rng, rng.randint(2, 8), rng.randint(1, 4)), "tree-messages") for _ in range(n)]
         cs += [(session(rng, rng.randint(2, 6), rng.randint(1, 3), frag_off=True), "tree-messages-frag-off") for _ in range(n // 3)]
         cs += [(reuse_session(rng), "header-reused") for _ in range(n // 4)]
+        cs += [(lazy_session(rng), "lazy-schedule (implementation only)") for _ in range(n // 4)]
         return cs
+
+    def impl_only(self, line):
+        return line.startswith("net ") and line.split()[2] == "2"
 
     def nontrivial(self, line, io):
         return ":148/" in io or "x2:" in io or io.count("x1:1") > 2
